@@ -1,6 +1,6 @@
 #!/bin/bash
 # quick developer rebuild: coq (make), extraction, driver, harness
 set -e
-cd /verif/coq && { [ -f Makefile ] || coq_makefile -f _CoqProject -o Makefile >/dev/null; } && make -j16 2>&1 | grep -v "^COQ\|^CO\|make" | head -30
+cd /verif/coq && { [ -f Makefile ] && [ Makefile -nt _CoqProject ] || coq_makefile -f _CoqProject -o Makefile >/dev/null; } && make -j16 > /tmp/verif_make.log 2>&1 || { grep -v "^COQ\|^CO" /tmp/verif_make.log | head -30; exit 1; }
 cd /verif/ocaml && coqc -Q ../coq TV ../coq/Extract.v && ocamlfind ocamlopt -package str -linkpkg -O2 -w -a model.mli model.ml proto.ml prog.ml $(ls drv_*.ml) driver.ml -o /verif/_build/driver && rm -f *.cm* *.o
 cd /verif/harness && GOFLAGS=-mod=mod GOPROXY=off GOSUMDB=off GOTOOLCHAIN=local go build -tags verif -o /verif/_build/harness .
